@@ -42,6 +42,20 @@ def gen_tables(ctx, max_paths=3000, max_size=1500):
                 if L.label_ok(a, g.models) and a not in aliases:
                     aliases[a] = parts[i]
                     parts[i] = a
+        # two different decaying names for one particle (an alias next to the plain name, or two aliases), each with its own block
+        twin = None
+        if aliases and n >= 3 and r.random() < 0.5:
+            a0, t0 = r.choice(list(aliases.items()))
+            k = parts.index(a0)
+            if k >= 1:
+                twin = t0 if r.random() < 0.5 else "Other" + t0.replace("anti-", "a")
+                if twin not in parts and L.label_ok(twin, g.models):
+                    if twin != t0:
+                        aliases[twin] = t0
+                    parts.insert(k + 1, twin)
+                    n += 1
+                else:
+                    twin = None
         for a, t in aliases.items():
             stmts.append({"k": "Alias", "a": a, "b": t})
         na = "MyStable"
@@ -57,6 +71,8 @@ def gen_tables(ctx, max_paths=3000, max_size=1500):
                 for _ in range(k):
                     x = r.random()
                     fs.append(r.choice(later) if later and x < 0.55 else (na if x < 0.62 else r.choice(stable)))
+                if twin is not None and i == 0 and twin in later and r.random() < 0.7:
+                    fs += [twin, parts[parts.index(twin) - 1]]      # both names of the particle below one mother
                 if fs and r.random() < 0.3:
                     fs.append(fs[0])
                 mod = r.choice([("PHSP", []), ("VSS", []), ("HELAMP", ["1.0", "0.0", "-1.0", "0.5"]), ("SVS", []), ("VSS_BMIX", ["0.5"])])
